@@ -54,6 +54,7 @@ def run(P, R, tier):
     lines_rule(P, R, "C05.lines", only=("GetSelectedOutputStringLine",))
     once_rule(P, R)
     open_rule(P, R)
+    stream_rule(P, R)
     # the engine-side selected-output switch pr.punch and the sink gate punch_on move together (shared with C07.mirror):
     # a write of pr.punch that is not followed by Set_punch_on lets the table fill while string and file stay empty (or v.v.)
     from . import c07 as C07
@@ -96,6 +97,94 @@ def once_rule(P, R):
             for c in T.children(node):
                 rec(c, in_loop)
         rec(f["body"], False)
+
+
+def stream_rule(P, R):
+    """Every engine loop that walks the selected-output blocks and punches per block selects the block's file stream first:
+    phrq_io->Set_punch_ostream(current_selected_output->Get_punch_ostream()).  A block whose file switch is off has a NULL
+    stream on purpose; installing it is what keeps its rows out of the file of the previously punched block.  The selection
+    must therefore be an unconditional statement of the loop body (after the `continue` filters) that precedes every
+    statement that may punch, and the stream is detached (NULL) after the loop."""
+    R.rule("C05.stream", "loops over the blocks that punch select the block's file stream unconditionally before punching and detach it after the loop", minimum=4)
+    from ..callgraph import get as callgraph
+    CG = callgraph(P)
+    sinks = set(k for k, g in P.functions.items() if g["q"] in ("PHRQ_io::fpunchf", "PHRQ_io::punch_msg", "PHRQ_io::fpunchf_end_row", "Phreeqc::fpunchf",
+                                                                  "Phreeqc::fpunchf_user", "Phreeqc::punch_msg", "Phreeqc::fpunchf_end_row", "Phreeqc::fpunchf_heading"))
+    if not sinks:
+        R.anchor_missing("C05.stream", "punch sinks not found")
+        return
+    reach = CG.reach_to(sinks)
+
+    def may_punch(n, f):
+        for c in T.calls(n):
+            if isinstance(c[2], dict) and any(k in reach for k in CG.resolve(c[2], f)):
+                return True
+        return False
+
+    def is_select(s, scope=None):
+        """phrq_io->Set_punch_ostream(<... Get_punch_ostream() of the current block ...>) as a statement"""
+        if not (T.is_node(s) and s[0] == "Call" and T.callee_q(s) == "PHRQ_io::Set_punch_ostream" and s[4]):
+            return None
+        a = s[4][0]
+        if T.lit_value(a) == 0 or T.text(a) in ("NULL", "nullptr", "0"):
+            return "null"
+        if any(T.callee_name(c) == "Get_punch_ostream" for c in T.calls(a)):
+            return "block"
+        a0 = T.strip_casts(a)
+        if scope is not None and a0[0] == "Ref" and a0[2] == "local":
+            # a local declared unconditionally in the loop body from the block's Get_punch_ostream()
+            for st in scope:
+                if T.is_node(st) and st[0] == "Decl":
+                    for dd in st[2]:
+                        if dd[0] == a0[3] and T.is_node(dd[2]) and any(T.callee_name(c) == "Get_punch_ostream" for c in T.calls(dd[2])):
+                            return "block"
+        return "other"
+
+    for key, f in sorted(P.functions.items()):
+        if not f["q"].startswith("Phreeqc::"):
+            continue
+        def rec(node, parent_stmts, idx):
+            if not T.is_node(node):
+                return
+            if node[0] == "Compound":
+                for i, c in enumerate(node[2]):
+                    rec(c, node[2], i)
+                return
+            if node[0] == "For":
+                body = node[5]
+                stmts = body[2] if T.is_node(body) and body[0] == "Compound" else [body]
+                sets_cur = [i for i, st in enumerate(stmts) if T.is_node(st) and st[0] == "Bin" and st[2] == "=" and
+                            T.strip_casts(st[3])[0] == "Member" and T.strip_casts(st[3])[2] == "Phreeqc::current_selected_output"]
+                if sets_cur and may_punch(body, f):
+                    inst = "%s@%d" % (f["q"].split("::")[-1], node[1])
+                    where = dict(file=f["file"], line=node[1], function=f["q"])
+                    sel = [i for i, st in enumerate(stmts) if is_select(st, stmts) == "block"]
+                    nested = [x for x in T.walk(body) if is_select(x) == "block"]
+                    first_punch = next((i for i, st in enumerate(stmts) if i > sets_cur[0] and T.is_node(st) and st[0] != "If" and may_punch(st, f)), None)
+                    if first_punch is None:
+                        first_punch = next((i for i, st in enumerate(stmts) if i > sets_cur[0] and T.is_node(st) and may_punch(st, f) and
+                                            not (st[0] == "If" and all(y[0] in ("Continue",) or not may_punch(y, f) for y in [st[3]]))), None)
+                    if not sel:
+                        if nested:
+                            R.violation("C05.stream", inst, "the block's file stream is installed only conditionally (line %d): a block without a file keeps the stream of the "
+                                        "previously punched block and its rows are written into that block's file" % nested[0][1], **where)
+                        else:
+                            R.violation("C05.stream", inst, "the loop punches per block but never selects the block's file stream", **where)
+                    elif first_punch is not None and sel[0] > first_punch:
+                        R.violation("C05.stream", inst, "a statement that may punch (line %d) precedes the selection of the block's file stream (line %d)"
+                                    % (stmts[first_punch][1], stmts[sel[0]][1]), **where)
+                    else:
+                        R.ok("C05.stream", inst, "stream selected unconditionally at line %d before the first punching statement" % stmts[sel[0]][1])
+                    # detached after the loop
+                    after = parent_stmts[idx + 1:] if parent_stmts is not None else []
+                    if any(is_select(st) == "null" for st in after):
+                        R.ok("C05.stream", inst + ":detach", "stream detached after the loop")
+                    else:
+                        R.violation("C05.stream", inst + ":detach", "the file stream of the last block stays installed after the loop", **where)
+                    return
+            for c in T.children(node):
+                rec(c, None, 0)
+        rec(f["body"], None, 0)
 
 
 def open_rule(P, R):
